@@ -53,6 +53,7 @@ def eval_case(hist, rec):
 
 
 def strategy():
+    gen.UNREAD_INPUTS['on'] = True   # run bodies that do not read every declared input (not run, not loaded; yet forced)
     return histgen.histories(KINDS, max_ops=30, n_variants=(2, 4),
                              gen_kw=dict(max_modules=3, max_tasks=3, kinds=gen.KINDS_ALL), name_mode=True)
 
